@@ -201,8 +201,47 @@ pub fn t_int_misc() -> String {
     o.push_str(&'9'.to_digit(10).unwrap().to_string());
     o
 }
+pub fn t_misc2() -> String {
+    let mut o = String::new();
+    let mut a = String::from("old");
+    let prev = std::mem::replace(&mut a, String::from("new"));
+    let taken = std::mem::take(&mut a);
+    o.push_str(&prev); o.push_str(&taken); o.push_str(b(a.is_empty()));
+    let mut x = String::from("x"); let mut y = String::from("y");
+    std::mem::swap(&mut x, &mut y); o.push_str(&x); o.push_str(&y);
+    o.push_str(&std::iter::repeat("ab").take(3).collect::<Vec<_>>().join("-"));
+    let mut v: Vec<String> = Vec::with_capacity(4);
+    v.extend(["q".to_string(), "p".to_string()]); v.extend_from_slice(&["r".to_string()]);
+    v.sort_by_key(|s| std::cmp::Reverse(s.clone()));
+    o.push_str(&v.join(""));
+    let bx: Box<[usize]> = (1..4).map(|i| i * i).collect();
+    o.push_str(&bx.iter().map(|i| i.to_string()).collect::<Vec<_>>().join(","));
+    o.push_str(&"héllo".char_indices().rev().map(|(i, c)| format!("{i}{c}")).collect::<String>());
+    let r: Result<usize, String> = "12".parse::<usize>().map_err(|e| e.to_string());
+    fn twice(r: Result<usize, String>) -> Result<usize, String> { let v = r?; Ok(v * 2) }
+    o.push_str(&twice(r).unwrap().to_string()); o.push_str(&twice(Err("bad".into())).unwrap_err());
+    let n: u8 = 250; o.push_str(&n.wrapping_add(10).to_string()); o.push_str(&n.checked_add(10).is_none().to_string());
+    o.push_str(&(n as i8).to_string()); o.push_str(&(-1i32 as u32).to_string()); o.push_str(&(300usize as u8).to_string()); o.push_str(&(('a' as u8 + 2) as char).to_string());
+    o.push_str(&(7i32 / -2).to_string()); o.push_str(&(7i32 % -2).to_string()); o.push_str(&(1u32 << 5).to_string()); o.push_str(&(0xF0u8 >> 4).to_string()); o.push_str(&(6 & 3 | 8 ^ 1).to_string());
+    let words = ["b", "a", "c"]; let mut idx: Vec<usize> = (0..words.len()).collect(); idx.sort_by(|i, j| words[*i].cmp(words[*j]));
+    o.push_str(&idx.iter().map(|i| i.to_string()).collect::<String>());
+    o.push_str(&words.iter().rev().enumerate().map(|(i, w)| format!("{i}{w}")).collect::<String>());
+    o.push_str(&words.binary_search(&"b").is_ok().to_string());
+    let mut it = words.iter().peekable(); let mut acc = String::new();
+    while let Some(w) = it.next() { acc.push_str(w); if let Some(nx) = it.peek() { acc.push_str(&nx.to_uppercase()); } }
+    o.push_str(&acc);
+    let opt: Option<&str> = Some("v"); o.push_str(opt.map(|s| s.len()).map_or("none", |_| "some")); o.push_str(opt.and_then(|s| s.strip_prefix('v')).unwrap_or("-"));
+    o.push_str(&opt.into_iter().chain(None).chain(Some("w")).collect::<String>());
+    let nested: Vec<(usize, Option<&str>)> = vec![(1, Some("a")), (2, None)];
+    for (i, n) in &nested { match (i, n) { (1, Some(s)) => o.push_str(s), (k, None) => o.push_str(&k.to_string()), _ => o.push('?') } }
+    o.push_str(&["x", "y"].concat()); o.push_str(&vec!["m"; 3].join("")); o.push_str(&[1usize, 5, 3].iter().max().unwrap().to_string());
+    o.push_str(&"a,b;c".split(|c| c == ',' || c == ';').collect::<Vec<_>>().join("|")); o.push_str(&"x=1".split_terminator('=').last().unwrap());
+    o.push_str(&"AbC".chars().map(|c| if c.is_uppercase() { c.to_ascii_lowercase() } else { c.to_ascii_uppercase() }).collect::<String>());
+    o.push_str(&"tEsT".chars().flat_map(|c| c.to_uppercase()).collect::<String>()); o.push_str(&"ß".to_uppercase());
+    o
+}
 pub const ALL: &[(&str, fn() -> String)] = &[
     ("t_char_ascii", t_char_ascii), ("t_eq_ignore_case", t_eq_ignore_case), ("t_split_at", t_split_at), ("t_splitn", t_splitn),
     ("t_option_misc", t_option_misc), ("t_result_misc", t_result_misc), ("t_iter_misc", t_iter_misc), ("t_vec_misc", t_vec_misc),
-    ("t_path_misc", t_path_misc), ("t_str_misc", t_str_misc), ("t_collections", t_collections), ("t_int_misc", t_int_misc),
+    ("t_path_misc", t_path_misc), ("t_str_misc", t_str_misc), ("t_collections", t_collections), ("t_int_misc", t_int_misc), ("t_misc2", t_misc2),
 ];
